@@ -180,7 +180,7 @@ def e4_harnesses():
         for tag, tiers, n in (("q", Q, c["nq"]), ("t", T, c["nt"])):
             hs.append(h("e4", "proofs::lr_%s_%s" % (c["name"], tag),
                         "grammar %s %s: automaton over the real table accepts iff sentence (Earley reference), rejects at the first offending token, every accepted run is a valid derivation" % (c["file"], " ".join(c["args"])),
-                        "all token strings of length <= %d over the grammar's terminals" % n, F_TABLE, tiers=tiers, timeout=1800, mem_gb=10, cost=3, extra=NOMEM))
+                        ("all token strings of length <= %d over the grammar's terminals" % n) if tag == "q" else "all token strings up to the thorough bound (>= %d; 12/10/8/7/6/5 for 1/2/3/4/5/6+ terminals) over the grammar's terminals" % n, F_TABLE, tiers=tiers, timeout=1800, mem_gb=10, cost=3, extra=NOMEM))
     return hs
 
 
